@@ -82,6 +82,7 @@ Record client := mkC {
 }.
 
 Definition set_open v c := mkC v (c_lost c) (c_closed_ev c) (c_att c) (c_fut c) (c_received c) (c_buf c) (c_has_w c) (c_w c) (c_hash c) (c_len c) (c_verified c) (c_phase c) (c_now c) (c_T c) (c_delivered c) (c_unk c).
+Definition set_att v c := mkC (c_open c) (c_lost c) (c_closed_ev c) v (c_fut c) (c_received c) (c_buf c) (c_has_w c) (c_w c) (c_hash c) (c_len c) (c_verified c) (c_phase c) (c_now c) (c_T c) (c_delivered c) (c_unk c).
 Definition set_lost v c := mkC (c_open c) v (c_closed_ev c) (c_att c) (c_fut c) (c_received c) (c_buf c) (c_has_w c) (c_w c) (c_hash c) (c_len c) (c_verified c) (c_phase c) (c_now c) (c_T c) (c_delivered c) (c_unk c).
 Definition set_fut v c := mkC (c_open c) (c_lost c) (c_closed_ev c) (c_att c) v (c_received c) (c_buf c) (c_has_w c) (c_w c) (c_hash c) (c_len c) (c_verified c) (c_phase c) (c_now c) (c_T c) (c_delivered c) (c_unk c).
 Definition set_buf v c := mkC (c_open c) (c_lost c) (c_closed_ev c) (c_att c) (c_fut c) (c_received c) v (c_has_w c) (c_w c) (c_hash c) (c_len c) (c_verified c) (c_phase c) (c_now c) (c_T c) (c_delivered c) (c_unk c).
@@ -287,8 +288,10 @@ Definition run_callbacks (c : client) : client :=
 Definition finish (res : dlres) (c : client) : client :=
   (* download_blob's finally: close the writer handle if still open *)
   let c1 := if c_has_w c && negb (w_closed (c_w c)) then set_has_w false (set_w (close_handle (c_w c)) c) else c in
-  (* blob.length is NOT touched: a length learned from a peer stays in the shared blob (known finding race-length-poison) *)
-  set_phase (PhDone res) c1.
+  (* blob.length is NOT touched: a length learned from a peer stays in the shared blob (known finding race-length-poison).
+     The request is over: `self._response_fut = None` - whatever arrives on the idle kept connection is unsolicited
+     and takes data_received's "received data before expected" branch, which closes (fix a1a028a) *)
+  set_phase (PhDone res) (set_att false c1).
 
 (* the coroutine runs until it has to wait again *)
 Definition co_await_fin (c : client) : client :=
@@ -339,12 +342,23 @@ Definition fire_timeouts (c : client) : client :=
   | _ => c
   end.
 
+(* the task running download_blob is cancelled (another peer finished the blob first, the stream was stopped):
+   CancelledError is raised at the await the coroutine is suspended in; download_blob closes and re-raises *)
+Definition cancel_download (c : client) : client :=
+  match c_phase c with
+  | PhAwaitResp _ =>
+      finish DlCancelled (close (match c_fut c with FutPending => set_fut FutCancelled c | _ => c end))
+  | PhAwaitFin _ => finish DlCancelled (close (set_w (close_handle (c_w c)) c))
+  | _ => c
+  end.
+
 Inductive event :=
 | EvData (d : bytes)      (* the transport delivers a segment (dropped when the transport is closing) *)
 | EvLate (d : bytes)      (* data_received called although the transport is closing *)
 | EvDrain
 | EvAdvance (dt : Z)      (* drain, move the clock, fire expired timers, drain *)
-| EvLost.                 (* the peer closes the connection *)
+| EvLost                  (* the peer closes the connection *)
+| EvCancel.               (* task.cancel() on the download, then the loop runs *)
 
 Definition force_close (c : client) : client := set_lost true (set_open false c).
 
@@ -363,6 +377,7 @@ Definition step_with (dr : client -> bytes -> client * bool) (c : client) (e : e
       let c1 := drain c in
       drain (fire_timeouts (set_now (c_now c1 + Z.max dt 0) c1))
   | EvLost => if c_open c then force_close c else c
+  | EvCancel => drain (cancel_download c)
   end.
 
 Definition step := step_with data_received.
